@@ -3,6 +3,8 @@ Line-protocol handlers for M4 (MiniGo/MiniXGo): an s-expression reader for progr
 canonical rendering of values/outcomes, and the ops
 
   mini <sexpr-prog>      → `<outcome of evalGo (lowerProg p)>` and, when it differs, ` SPEC=<outcome of specEval p>`
+  minilow <sexpr-prog>   → `<outcome of evalGo (lowerProg p)>` only
+  minic <sexpr-prog>     → `accept` / `reject` (`Prog.compilable`)
   minispec <sexpr-prog>  → `<outcome of specEval p>`
   minigo <sexpr-prog>    → Go text of `lowerProg p` (structural tie / debugging)
 
@@ -235,6 +237,18 @@ def handleMini (fields : List String) : String :=
     let s := runProg p
     let c := if p.compilable then "" else " NOTCOMPILABLE"
     if l = s then l ++ c else l ++ " SPEC=" ++ s ++ c
+
+/-- Only the lowered program (scenarios outside the property's reading: tie only). -/
+def handleMiniLow (fields : List String) : String :=
+  match (parseSExp (fields.headD "")).bind toProg with
+  | none => "bad-input"
+  | some p => runProg (lowerProg p) ++ (if p.compilable then "" else " NOTCOMPILABLE")
+
+/-- Model of "the compiler accepts this program (and emits valid Go)". -/
+def handleMiniC (fields : List String) : String :=
+  match (parseSExp (fields.headD "")).bind toProg with
+  | none => "bad-input"
+  | some p => if p.compilable then "accept" else "reject"
 
 def handleMiniSpec (fields : List String) : String :=
   match (parseSExp (fields.headD "")).bind toProg with
